@@ -140,7 +140,15 @@ pub fn gen_pair(rng: &mut Rng, size: Size) -> (Vec<u32>, Vec<u32>) {
     let (lo, hi) = match size {
         Size::Small => (0, 12),
         Size::Medium => (13, 60),
-        Size::Large => (101, 400),
+        // a third of the large cases straddle the 100-item switch of the text
+        // diff builder (99, 100, 101 items ...)
+        Size::Large => {
+            if rng.chance(1, 3) {
+                (85, 115)
+            } else {
+                (101, 400)
+            }
+        }
         Size::Huge(max) => (max / 2, max),
     };
     let len = rng.range(lo, hi);
